@@ -209,7 +209,9 @@ class PseudoOperand(Operand):
         elif instruction.is_multi_word:
             self.value = MultiWordValue(operand_string) if "," in operand_string else Value.create_from_str(operand_string, instruction)
         else:
-            self.value = NoneValue() if instruction.is_include else Value.create_from_str(operand_string, instruction)
+            self.value = NoneValue() if instruction.is_include or \
+                (operand_string == "" and instruction.mnemonic in ["END", "NAM"]) \
+                else Value.create_from_str(operand_string, instruction)
 
         if instruction.is_pseudo_define:
             if self.operand_string.startswith("$") and len(self.operand_string) > 3:
